@@ -94,6 +94,10 @@ def run():
                           brbase.replace("Defects = {}", 'Defects = {"NoRangeSafeguard"}'))
     expect_counterexample(t, "Brent{ReturnSAlways} returns a non-root", "MC_Brent",
                           brbase.replace("Defects = {}", 'Defects = {"ReturnSAlways"}'))
+    expect_counterexample(t, "PolyDivide{cancelled_term_kept_unless_below_tolerance} loops at a zero tolerance", "MC_PolyDivide",
+                          open(os.path.join(vlib.SPEC, "MC_PolyDivide_defect.cfg")).read())
+    expect_counterexample(t, "PolyDivide{zero_divisor_test_strict} divides by the zero polynomial at a zero tolerance", "MC_PolyDivide",
+                          open(os.path.join(vlib.SPEC, "MC_PolyDivide_defect2.cfg")).read())
     # ---- unbounded lemmas of the Brent design (TLAPS) -----------------------------------------------------
     import shutil
     import tempfile
@@ -127,6 +131,19 @@ def run():
     keys = ("id", "solver", "a", "b", "tol", "n_max", "evals", "n", "ret", "x")
     brows = [{k: r[k] for k in keys} for r in fncommon.observe(ctx0, "bracket", bc, "stb", nproc=1)]
     fncommon.validate(ctx0, brows, "Trace_Brent", "stb", nshards=1)
+    from checks import c12
+    dcases = c12.seeded(ctx0, random.Random(5), 40)
+    for k, c in enumerate(dcases):
+        c["id"] = k + 1
+    drows = [{k: r[k] for k in ("id", "cx", "a", "d", "ta", "st", "q", "r")} for r in fncommon.observe(ctx0, "poly-div", dcases, "std", nproc=1)]
+    nd0 = len(ctx0.drift)
+    fncommon.validate(ctx0, drows, "Trace_PolyDivide", "std", nshards=1)
+    t.check("clean divide() results explained bit for bit by PolyDivide over doubles", len(ctx0.drift) == nd0 and len(drows) == 40, "%d runs" % len(drows))
+    victim = next(r for r in drows if r["st"] == "ok" and len(r["d"]) >= 2 and len(r["q"]) >= 2)
+    bent = dict(victim, q=[[bump(z[0]), z[1]] if j == 0 else z for j, z in enumerate(victim["q"])])
+    fncommon.validate(ctx0, [bent], "Trace_PolyDivide", "std2", nshards=1)
+    t.check("a quotient coefficient moved by one ulp is rejected by Trace_PolyDivide", len(ctx0.drift) == nd0 + 1)
+    del ctx0.drift[nd0:]
     t.check("clean brent() abscissa traces explained bit for bit by Brent over doubles", not ctx0.drift and len(brows) == 25, "%d runs" % len(brows))
     j = next(k for k, r in enumerate(brows) if r["n"] >= 6 and r["ret"] == "ok")
     b2 = copy.deepcopy(brows)
@@ -413,11 +430,11 @@ def run():
     tab = os.path.join(vlib.VERIF, "work", "selftest-tables.ndjson")
     vlib.vh("tables", tab)
     rows = [r_ for r_ in vlib.read_ndjson(tab) if r_["table"] in ("legendre", "tanhsinh")][:14]
-    viols, ok = validate_events("Val_C10", rows, env={"VH_RELG": "2e-10", "VH_RELDE": "1e-13"})
+    viols, ok = validate_events("Val_C10", rows, env={"VH_RELG": "2e-10", "VH_RELB": "1e-12", "VH_RELDE": "1e-13"})
     t.check("clean table rows accepted by Val_C10", ok and not viols)
     rows2 = copy.deepcopy(rows)
     rows2[9]["pairs"][1][1] = vlib.float_to_pair(vlib.pair_to_float(rows2[9]["pairs"][1][1]) * (1 + 1e-8))
-    viols, ok = validate_events("Val_C10", rows2, env={"VH_RELG": "2e-10", "VH_RELDE": "1e-13"})
+    viols, ok = validate_events("Val_C10", rows2, env={"VH_RELG": "2e-10", "VH_RELB": "1e-12", "VH_RELDE": "1e-13"})
     t.check("one weight changed by 1e-8 -> row rejected", any(v[1] == 10 for v in viols))
     print("selftest: %d failures" % t.fail)
     return 0 if t.fail == 0 else 2
